@@ -21,7 +21,7 @@ class World:
 
     def __init__(self, kind, sc):
         import mido.ports as ports
-        self.kind, self.sc, self.cable, self.sleeps, self.poplog = kind, sc, [], [0], []
+        self.kind, self.sc, self.cable, self.sleeps, self.poplog, self.partial = kind, sc, [], [0], [], {}
         world = self
 
         def dev_send(self_, msg):
@@ -81,9 +81,11 @@ def body_for(world, prog, sent_objs, t):
                 results.append(('got', world.port.receive(block=bool(op[1]))))
             else:
                 acc = []
-                results.append(('list', acc))
+                world.partial[t] = acc                 # what an unfinished iteration has taken so far (for the oracle)
                 for m in world.port.iter_pending():
                     acc.append(m)
+                results.append(('list', acc))
+                world.partial[t] = []
     return body
 
 
@@ -94,14 +96,18 @@ def execute(kind, progs, policy, max_steps):
     sent_objs = []
     try:
         sc.start([body_for(world, p, sent_objs, t) for t, p in enumerate(progs)])
-        cur_t, slept = None, False
+        cur_t, slept, spins = None, False, 0
         while len(sc.trace) < max_steps and any(st != 'done' for st in sc.state):
             t = policy(sc, cur_t, slept)
             if t is None:
                 break
             sc.step(t)
-            slept = sc.state[t] == 'parked' and False
             cur_t = t
+            # a thread that sleeps again and again while nobody else can move will spin for ever: nothing more to see
+            if sc.state[t] == 'sleeping' and not any(sc.enabled(u) for u in range(sc.n) if u != t):
+                spins += 1
+                if spins >= 2:
+                    break
         out = []
         for t in range(len(progs)):
             oc = sc.outcome[t]
@@ -112,7 +118,7 @@ def execute(kind, progs, policy, max_steps):
             else:
                 out += [0, 0]
             res = sc.results[t]
-            fin = [r for r in res if not (r[0] == 'list' and sc.outcome[t] is None and r is res[-1])]
+            fin = res
             out.append(len(fin))
             for r in fin:
                 if r[0] == 'sent':
@@ -145,6 +151,7 @@ def oracle(kind, progs, sc, world, sent_objs, complete):
                 received.append(r[1])
             elif r[0] == 'list':
                 received += r[1]
+        received += world.partial.get(t, [])
     # whatever is still on its way: the rest of the cable through the port's own parser, then the queue
     if kind != 'echo':
         world.inp._parser.feed(world.cable)
@@ -153,7 +160,8 @@ def oracle(kind, progs, sc, world, sent_objs, complete):
     key = lambda m: tuple(canon.msg_ints(m))
     sent_keys = [key(c) for _, _, c in sent_objs]
     got_keys = [key(m) for m in order]
-    if sorted(key(m) for m in received) != sorted(key(m) for m in world.poplog):
+    rk, pk = sorted(key(m) for m in received), sorted(key(m) for m in world.poplog)
+    if (complete and rk != pk) or any(rk.count(k) > pk.count(k) for k in rk):
         return ('lost-after-pop', 'popped %r but the callers received %r' % (world.poplog, received))
     for k in got_keys:
         if k not in sent_keys:
